@@ -193,6 +193,17 @@ def gen_spec(rng, derived, entry=None, kind=None, max_vals=40, allow_generic=Tru
     spec = {"kind": kind, "variants": variants, "derived": list(derived),
             "entry": entry or rng.choice(["attr", "derive"]), "generic": generic,
             "attr_order": rng.random()}
+    # how the user wrote it: trait list split over two attributes, explicit (decreasing) discriminants, Debug co-derived
+    # with #[debug(ignore)] on some fields - none of which may change a comparison or the hash feed
+    if rng.random() < 0.25:
+        spec["split"] = rng.randint(1, 4)
+    if kind == "enum" and rng.random() < 0.3:
+        spec["disc"] = True
+    if rng.random() < 0.2:
+        spec["codebug"] = rng.choice(["first", "last"])
+        for v in variants:
+            for f in v["fields"]:
+                f["dbg_ignore"] = rng.random() < 0.5
     # a generic spec must actually mention T somewhere
     uses_t = any(FT[f["ft"]].get("generic") for v in variants for f in v["fields"])
     spec["generic"] = uses_t
@@ -233,6 +244,21 @@ def field_attr_text(f, spec):
     return " ".join(attrs)
 
 
+def derive_lists(spec, derive_attr):
+    """The derive_ex argument lists of the type: one list, or - spec["split"] = k - the traits split into two attributes
+    after the k-th; spec["codebug"] adds Debug (whose helper attribute #[debug(ignore)] sits on some fields)."""
+    traits = derive_attr.split(", ")
+    if spec.get("codebug") == "first":
+        traits = ["Debug"] + traits
+    elif spec.get("codebug"):
+        traits = traits + ["Debug"]
+    k = spec.get("split")
+    if k and len(traits) >= 2:
+        k = 1 + (k - 1) % (len(traits) - 1)
+        return [", ".join(traits[:k]), ", ".join(traits[k:])]
+    return [", ".join(traits)]
+
+
 def type_text(spec, name="Ty", derive_attr=None, field_attrs=True, extra_type_attrs=""):
     g = "<T: ::dxrt::HasK>" if spec["generic"] else ""
     body = []
@@ -240,6 +266,8 @@ def type_text(spec, name="Ty", derive_attr=None, field_attrs=True, extra_type_at
         fs = []
         for fi, f in enumerate(v["fields"]):
             a = (field_attr_text(f, spec) + " ") if field_attrs else ""
+            if field_attrs and spec.get("codebug") and f.get("dbg_ignore"):
+                a = "#[debug(ignore)] " + a if fi % 2 else a + "#[debug(ignore)] "
             ty = FT[f["ft"]]["ty"]
             fs.append(f"{a}f{fi}: {ty}" if v["style"] == "named" else f"{a}{ty}")
         if v["style"] == "named":
@@ -251,18 +279,23 @@ def type_text(spec, name="Ty", derive_attr=None, field_attrs=True, extra_type_at
         body.append((vi, b))
     head = ""
     if derive_attr is not None:
+        lists = derive_lists(spec, derive_attr)
         if spec["entry"] == "attr":
-            head = f"#[::derive_ex::derive_ex({derive_attr})]\n"
+            head = f"#[::derive_ex::derive_ex({lists[0]})]\n" + "".join(f"#[derive_ex({x})]\n" for x in lists[1:])
         else:
-            head = f"#[derive(::derive_ex::Ex)]\n#[derive_ex({derive_attr})]\n"
+            head = "#[derive(::derive_ex::Ex)]\n" + "".join(f"#[derive_ex({x})]\n" for x in lists)
     head += extra_type_attrs
     if spec["kind"] == "struct":
         b = body[0][1]
         if spec["variants"][0]["style"] == "named":
             return f"{head}pub struct {name}{g} {b}"
         return f"{head}pub struct {name}{g}{b};"
-    vs = ", ".join(f"V{vi}{b}" for vi, b in body)
-    return f"{head}pub enum {name}{g} {{ {vs} }}"
+    # spec["disc"]: explicit discriminants that DEcrease in declaration order (cross-variant order is by declaration)
+    nv = len(body)
+    disc = (lambda vi: f" = {(nv - vi) * 3}") if spec.get("disc") else (lambda vi: "")
+    rep = "#[repr(u8)]\n" if spec.get("disc") else ""
+    vs = ", ".join(f"V{vi}{b}{disc(vi)}" for vi, b in body)
+    return f"{head}{rep}pub enum {name}{g} {{ {vs} }}"
 
 
 def ctor(spec, vi, idx, name="Ty"):
